@@ -168,6 +168,7 @@ type Alpha struct {
 	FE       bool // front-end alphabets (C10, C14): {plain, required, two tests} × {valid, missing, nil, empty, failing, uncoercible}
 	Full     bool // C13: fully populated values only (no zero leaf, no empty slice, no nil pointer)
 	Lite     bool // reduced configuration/input alphabets (used where another dimension is added)
+	MutPost  bool // C13: value-changing PostTransforms are part of the alphabet {none, one changing, changing + plain}
 }
 
 // primitive configuration: index 0 is the plain node (optional, no default, no catch, tests {t2}).
@@ -445,6 +446,13 @@ func (b *caseBuilder) buildNode(s *Skel) *Node {
 	}
 	if b.a.WithPost {
 		b.postCfg(n, unit)
+	} else if b.a.MutPost && n.Kind != KPtr && n.Kind != KStruct {
+		switch b.pick(unit, "post", 3) {
+		case 1:
+			n.NPosts, n.PostMut = 1, true
+		case 2:
+			n.NPosts, n.PostMut = 2, true
+		}
 	}
 	if s.typ == nil {
 		s.typ = n.GoType() // the destination type depends on the skeleton only
@@ -456,8 +464,11 @@ func (b *caseBuilder) postCfg(n *Node, unit string) {
 	if n.Kind == KPtr {
 		return
 	}
-	// 0: one ok post; 1: none; 2: two ok; 3: first errors (second must not run); 4: second errors; 5: first returns *ZogIssue
-	switch b.pick(unit, "post", 6) {
+	// 0: one ok post; 1: none; 2: two ok; 3: first errors (second must not run); 4: second errors; 5: first returns *ZogIssue;
+	// 6: first returns an ordinary error that wraps a *ZogIssue (reported like any other error, at the node's path)
+	switch b.pick(unit, "post", 7) {
+	case 6:
+		n.NPosts, n.PostErr, n.PostWrap = 2, 1, true
 	case 0:
 		n.NPosts = 1
 	case 1:
